@@ -314,6 +314,11 @@ def _alloc_candidates_multiple_providers(rg_ctx, rw_ctx, rp_candidates):
     # values of rp_tuples because while sharing providers are root providers,
     # they have their "anchor" providers for the second value.
     root_ids = rp_candidates.all_rps
+    # A sharing provider may itself be a (non-root) member of another tree;
+    # its summary is only built if that tree's root is looked at as well.
+    root_ids |= set(
+        root_id for _rp_id, root_id in res_ctx.get_providers_with_root(
+            rg_ctx.context, rp_candidates.rps, None))
 
     # Get a dict, keyed by resource provider internal ID, of trait string names
     # that provider has associated with it
